@@ -296,9 +296,8 @@ func genFlips(c *vlib.Ctx) {
 			for i := range data {
 				seen := map[byte]bool{0: true}
 				xs := []byte{1 << uint(rng.Intn(8))} // a random bit ...
-				isLetter := (data[i]|0x20) >= 'a' && (data[i]|0x20) <= 'z'
-				if isLetter && (i%2 == 0 || c.Thorough()) {
-					xs = append(xs, 0x20) // ... and the ASCII case bit of letters (base32 / hex digits are case-insensitive)
+				if i%2 == 0 || c.Thorough() {
+					xs = append(xs, 0x20) // ... and the ASCII case bit (base32 text and hex digits are case-insensitive)
 				}
 				for len(xs) < n {
 					xs = append(xs, byte(1+rng.Intn(255)))
